@@ -22,7 +22,7 @@ def main():
                     choices=["quick", "thorough"])
     ap.add_argument("--replay")
     ap.add_argument("--jobs", type=int, default=0)
-    ap.add_argument("--case", help="run only cases whose name contains this")
+    ap.add_argument("--case", action="append", help="run only cases whose name contains this (repeatable)")
     ap.add_argument("--confirm", help=argparse.SUPPRESS)
     a = ap.parse_args()
     if a.replay:
@@ -37,7 +37,7 @@ def main():
         return runner.confirm(modname, a.confirm)
     if a.case:
         orig = mod.cases
-        mod.cases = lambda tier: [c for c in orig(tier) if a.case in c.name]
+        mod.cases = lambda tier: [c for c in orig(tier) if any(x in c.name for x in a.case)]
         # a partial run must not overwrite the property's evidence file
         os.environ.setdefault("VERIF_EVIDENCE_DIR", os.path.join(VERIF, ".scratch-probes", "evidence"))
     seed = int(os.environ.get("VERIF_SEED", "0") or 0)
